@@ -37,6 +37,7 @@ def run(ctx, sess):
     r6(ctx, P, exc)
     r7(ctx, P, exc)
     r8(ctx, P)
+    carry_cursor_rule(ctx, P, 'C13.8')
     r9(ctx, P)
     storage_types_rule(ctx, P, 'C13.11')
     from .common import relay
@@ -795,3 +796,37 @@ def storage_types_rule(ctx, P, rule):
                'the reader delivers items of this type' if v in delivered else
                'the writer stores an item of type %s anywhere in the list, but jls_core_user_data returns an error when it meets one: every item written after it can no longer be read' % names.get(v, v))
     ctx.floor('accepted user-data storage types', n, 3)
+
+
+def carry_cursor_rule(ctx, P, rule):
+    """after a string block switch, what is carried over into the new block is followed by the block's cursor"""
+    n = 0
+    for fn in P.fns_in('src/buffer.c'):
+        sw = [c for c in fn.calls() if c.callee == 'strings_alloc']
+        bulk = [c for c in fn.calls(('memcpy', '__builtin_memcpy', '__builtin___memcpy_chk', 'memmove', '__builtin_memmove'))]
+        if not sw or not bulk:
+            continue
+        for c in bulk:
+            # a bulk copy that can follow a block switch
+            if not any(find_path(fn, s_, lambda e2, facts: 'target' if e2 is c else None, refine=False) is not None for s_ in sw):
+                continue
+            n += 1
+            ctx.saw(fn, 1)
+            dst = show(strip_casts(c.args[0]))
+            ln_ = show(strip_casts(c.args[2]))
+            # element stores through the cursor:  *s->cur++ = ...
+            elem = [ev for ev in fn.stores() if any(m.get('op') == 'un' and m.get('o') == 'post++' and
+                                                     strip_casts(m['k'][0]).get('op') == 'member' and strip_casts(m['k'][0]).get('field') == 'cur' for m in walk(ev.store_parts()[0]))]
+            def is_adv(e2):
+                if e2.k != 'store':
+                    return False
+                l0 = strip_casts(e2.store_parts()[0])
+                if l0.get('op') != 'member' or l0.get('field') != 'cur' or e2.store_parts()[1] is None:
+                    return False
+                return ln_ in show(e2.store_parts()[1])
+            w = find_path(fn, c, lambda e2, facts: 'stop' if is_adv(e2) else ('target' if e2 in elem else None), refine=False)
+            ctx.ob(rule, w is None, fn.name, 'cursor after the carried-over part (%s bytes to %s)' % (ln_, dst[:30]), c.where(),
+                   'the cursor of the new block is moved past the copied bytes before the next character is stored' if w is None else
+                   'the part of the string that was carried into the new block is copied in bulk, but the block cursor stays where it was: the rest of the string is stored on top of it and the reader returns only the tail',
+                   w.render() if w else None)
+    ctx.note('%s: %d bulk copies after a string block switch' % (rule, n))
